@@ -16,6 +16,7 @@ EXPLANATION = (
     "way init fails on content. K6: every validation failure inside the scan (magic, header CRC, key size) is constructed through "
     "Error::validation / Error::bincode, i.e. is of a quarantine class. Decides this error-classification structure, not the set "
     "of post-crash states.")
+EXPLANATION += (" " + 'K9 = C05.V7; K10 no io::Error of a kind other than UnexpectedEof is constructed in a read wrapper of src/io; K11 the switch that guards try_regenerate_index in Blob::from_file depends on the file size and one serialized_size() only; K12 = C03.I10.')
 ASSUMPTIONS = ["power-loss ordering between page-cache writes (F11, written flag vs body) is not decidable here and not claimed"]
 
 BLOB_READERS = ('read_exact_at_allocate', 'read_exact_at', 'read_all')
@@ -341,7 +342,7 @@ def k11(ctx, rid):
             if not (any(x not in can for x in outs) and any(x in can for x in outs)):
                 continue
             sites = []
-            lv = core.scalar_leaves(prog, f, t['o'], sites=sites)
+            lv = core.scalar_leaves(prog, f, t['o'], depth=0, sites=sites)
             if ('call', 'serialized_size') not in lv:
                 continue
             n += 1
